@@ -90,6 +90,11 @@ CHECKS["C20"] = dict(engine="svc", technique="stateful property-based testing of
    note="Request ids unique per source within a script.",
    ref="7.4 / C20")
 
+CHECKS["C11"] = dict(engine="svc", technique="differential / metamorphic property-based testing: the implementation's own responder as the honest reference, harness-built malicious answers, all 257 target/peer distance classes by construction",
+   text="Exploration: lookups whose target is placed at every log2 distance class from the peer; the generated FINDNODE is answered either by a second real service (honest reference; complete, lossy, duplicated, reordered) or by harness-built malicious NODES packets (off-distance records, own records, duplicates, extreme totals, floods, packets after completion); accepted records, the ban list, the 15-packet cap and post-completion inertness are checked. Found two defects on the pinned tree (honest responder banned for [1,2,0]; single foreign record accepted for [0]), both fixed.",
+   note="Honest reference = this implementation (as the statement says). Real key hashes only populate distance classes >= ~248; lower classes exercise request generation and the own-record path. Global ban list reset per case.",
+   ref="7.4 / C11")
+
 NOT_YET = {}
 
 def main():
